@@ -81,7 +81,7 @@ class Prog:
         return (self.obligations % self.second_every) == 0
 
     def float_inputs(self, model):
-        return {k: fl(v) for k, v in model.items() if k != "PI"}
+        return {k: fl(v) for k, v in model.items() if k not in ("PI", "__strings__")}
 
     def _robust_model(self, hyps, gen, ref):
         """Ask for a well-separated, boxed witness (replay-friendly)."""
